@@ -73,10 +73,11 @@ def scn_gmrf(variant, N, batch):
             tau = mk.real("tau", batch + (1,), lo=0)
             weights = mk.real("wgt", (N - 1,), lo=0) if variant == "weighted" else None
             tree_model = None
-            if variant == "timeaware":
+            if variant in ("timeaware", "timeaware_hb"):
                 from specs import treemodels, trees
                 T = N + 1   # N internal intervals -> field of length T-1 = N
-                hs = mk.real("h", (T - 1,), lo=0)
+                # timeaware_hb: the node heights carry the sample dimension too
+                hs = mk.real("h", (batch if variant == "timeaware_hb" else ()) + (T - 1,), lo=0)
                 # ordered heights so that no path explosion is needed here: h_i increasing via cumulative positive increments
                 hs = hs.cumsum(-1)
                 tree_model, _ = treemodels.build_timetree(trees.caterpillar(list(range(T))), ["t%d" % i for i in range(T)], [0.0] * T, hs)
